@@ -239,13 +239,14 @@ func (state *RuntimeState) VIPPollCheckHandler(w http.ResponseWriter, r *http.Re
 		return
 	}
 	pushTransaction, ok := state.getPushPollTransaction(vipPollCookie.Value)
-	if !ok {
+	// The transaction cookie is not authenticated: only the user the push was
+	// sent to may collect its approval.
+	if !ok || pushTransaction.Username != authData.Username {
 		err := errors.New("VIPPollCheckHandler: push transaction not found for user")
 		logger.Println(err)
 		state.writeFailureResponse(w, r, http.StatusPreconditionFailed, "Error parsing form")
 		return
 	}
-	//TODO: check username
 	valid, err := state.Config.SymantecVIP.Client.VipPushHasBeenApproved(pushTransaction.TransactionID)
 	if err != nil {
 		logger.Println(err)
